@@ -5,6 +5,7 @@ package main
 
 import (
 	"encoding/json"
+	"errors"
 	"flag"
 	"fmt"
 	"math/rand"
@@ -118,7 +119,7 @@ func session1(seed int64, i int) (ivs []interval, frames []rig.Frame, logged boo
 	buf := []int{0, 1, 10}[r.Intn(3)]
 	nSenders := 4 + r.Intn(5)
 	sweep := time.Duration(i%16) * 20 * time.Millisecond // inbound times are swept in 20 ms steps across the timer expiries
-	variant := []string{"resend+silence", "relogon", "register+query", "stop", "relogon-storm", "stalled-writer"}[(i/2)%6]
+	variant := []string{"resend+silence", "relogon", "register+query", "stop", "relogon-storm", "stalled-writer", "peer-closes-while-sending"}[(i/2)%7]
 	desc = fmt.Sprintf("%s buf=%d senders=%d sweep=%v variant=%s", role, buf, nSenders, sweep, variant)
 	tag := fmt.Sprintf("s%d|", i)
 	var imu sync.Mutex
@@ -179,6 +180,19 @@ func session1(seed int64, i int) (ivs []interval, frames []rig.Frame, logged boo
 			l.Conn.SetWriteMode(wire.WriteStall)
 			at(3000*time.Millisecond + sweep/4)
 			l.Conn.SetWriteMode(wire.WriteAccept)
+		case "peer-closes-while-sending":
+			// the peer goes away (end of stream, or a reset) in the middle of the traffic: the senders, the timers and the
+			// teardown of the connection all run at once, and the senders keep calling Send on the dead session
+			at(400 * time.Millisecond)
+			l.Conn.Feed(p.TestRequest("a"))
+			at(1200*time.Millisecond + sweep)
+			t0 := time.Now()
+			if i%4 < 2 {
+				l.Conn.FeedEOF()
+			} else {
+				l.Conn.FeedErr(errors.New("scripted: connection reset by peer"))
+			}
+			rec("connection-lost", t0, time.Now().Add(50*time.Millisecond))
 		case "resend+silence":
 			// traffic, then a heartbeat + resend request placed around the test-request expiry (2 s after the last inbound)
 			at(400 * time.Millisecond)
@@ -301,7 +315,7 @@ func session1(seed int64, i int) (ivs []interval, frames []rig.Frame, logged boo
 				}
 				rec("send", t0, time.Now())
 				if k%6 == 5 {
-					if (variant == "relogon" || variant == "relogon-storm") && g < 3 {
+					if (variant == "relogon" || variant == "relogon-storm" || variant == "peer-closes-while-sending") && g < 3 {
 						// keep sending densely so that sends fall between the peer's Logout and its new Logon
 						time.Sleep(time.Duration(5+rr.Intn(40)) * time.Millisecond)
 					} else {
